@@ -1,4 +1,5 @@
 import Qx.Proofs.Codec
+import Qx.Proofs.Xml
 import Qx.Xml.Codec.Classes
 import Qx.Xml.Codec.Literals
 /-!
@@ -59,6 +60,38 @@ theorem encode_decode_own_form (S : Schema) (hS : S.WF) (d : Node) (v : List Val
     (hd : d = S.encode v) (hv : S.Canon v) : S.encode (S.decode d) = d ∧ S.norm d = some d := by
   subst hd
   exact ⟨by rw [decode_encode S hS v hv], reserialize_same S hS v hv⟩
+
+/-! ## composition with tier A: from field values to CHARACTERS and back -/
+
+/-- **End to end: field values → `toXml` → the characters on the wire → XML parser → `fromDom` → the same field values.**
+`Qx.Xml.render` is the model of `QXmlStreamWriter`'s output and `Qx.Xml.parse` the model of the reader (tier A, both
+compared with the real Qt on every run); the hypothesis is exactly the one tier A needs: the written tree is
+`XmlSafe` — every character of every string is XML-legal, no text node is blank (QDom drops those: the property says
+"non-blank") and the names are names (true of every schema, whose tags are constants).  It is decidable for each value
+(`by decide`, see the example below); the strings themselves are arbitrary otherwise: markup characters, quotes, `]]>`,
+CR/LF/TAB, non-ASCII. -/
+theorem codec_roundtrip_chars (S : Schema) (hS : S.WF) (v : List Val) (hv : S.Canon v)
+    (hx : Qx.Xml.XmlSafe (S.encode v)) :
+    Qx.Xml.parse (Qx.Xml.render (S.encode v)) = some (S.encode v) ∧ S.parse (S.encode v) = some v := by
+  refine ⟨Qx.Xml.parse_render_xmlSafe (S.encode v) ?_ hx, parse_encode S hS v hv⟩
+  simp [Schema.encode, Head.mk', Node.isElem]
+
+/-- the same as one chain: parsing the written characters and handing the tree to `fromDom` yields the values -/
+theorem codec_roundtrip_chars_bind (S : Schema) (hS : S.WF) (v : List Val) (hv : S.Canon v)
+    (hx : Qx.Xml.XmlSafe (S.encode v)) :
+    (Qx.Xml.parse (Qx.Xml.render (S.encode v))).bind S.parse = some v := by
+  obtain ⟨h1, h2⟩ := codec_roundtrip_chars S hS v hv hx
+  rw [h1]; exact h2
+
+/-- **No field value can alter the element structure, end to end**: for ALL strings in the values (no hypothesis on
+them at all) the written characters parse, to the written tree with the characters the writer drops removed and
+blank text gone (`view`, tier A); only the schema's names must be names. -/
+theorem codec_render_parses_for_all_strings (S : Schema) (v : List Val) (hn : Qx.Xml.NamesOK (S.encode v)) :
+    Qx.Xml.parse (Qx.Xml.render (S.encode v)) = some (Qx.Xml.view (S.encode v)) := by
+  have h : ∃ n as ks, S.encode v = .elem n as ks := ⟨_, _, _, rfl⟩
+  obtain ⟨n, as, ks, e⟩ := h
+  rw [e] at hn ⊢
+  exact Qx.Xml.parse_render_view n as ks hn
 
 /-! ## the modelled classes: each inherits the theorems above -/
 open Classes
@@ -123,43 +156,80 @@ theorem wf_HashUsed : HashUsed.WF := by decide
 theorem wf_MamResultIq : MamResultIq.WF := by decide
 theorem wf_RosterItem : RosterItem.WF := by decide
 theorem wf_RosterIq : RosterIq.WF := by decide
-theorem wf_DataForm : DataForm.WF := by decide
-theorem wf_MucOwnerIq : MucOwnerIq.WF := by decide
-theorem wf_DiscoInfoIq : DiscoInfoIq.WF := by decide
-theorem wf_DiscoItemsIq : DiscoItemsIq.WF := by decide
 theorem wf_VCardAddress : VCardAddress.WF := by decide
 theorem wf_VCardEmail : VCardEmail.WF := by decide
 theorem wf_VCardPhone : VCardPhone.WF := by decide
 theorem wf_PubSubSubscription : PubSubSubscription.WF := by decide
 theorem wf_PubSubSubscriptionEvent : PubSubSubscriptionEvent.WF := by decide
 theorem wf_PubSubSubscriptionOwner : PubSubSubscriptionOwner.WF := by decide
-/-- the REPAIRED MAM query (fixes/C01-mamquery-queryid.diff); today's code is `MamQueryIqCode`, see below -/
-theorem wf_MamQueryIq : MamQueryIq.WF := by decide
+/-! ## defect of today's code: data forms
 
-/-! ## defects of today's code -/
+The five classes that contain a data form (`DataForm`, `MucOwnerIq`, `DiscoInfoIq`, `DiscoItemsIq`, `MamQueryIq`) are
+modelled AS THE CODE IS (`dataFormFieldsCode`); they are not well-formed and have no `wf_` theorem until
+fixes/C01-dataform-empty-value.diff is applied.  `DataFormFixed` is the repaired class. -/
 
-/-- a MAM query with query id "q1" and nothing else -/
+theorem wf_DataFormFixed : DataFormFixed.WF := by decide
+
+/-- today's `QXmppDataForm` is not a well-formed codec -/
+theorem C01_defect_dataform_not_wf : ¬ DataForm.WF := by decide
+
+/-- a submit form with one text-single field `var="a"` whose value is the empty, non-null string (`<value/>`) -/
+def formWitness : List Val := [.record [.opt (some 1), .record [.str []], .record [.str []],
+  .list [.record [.record [.nat 9, .str [], .list []], .str [], .str "a".toList, .record [.str []], .absent]]]]
+
+/-- how many child elements the first `<field/>` of a holder document has -/
+def firstFieldKids (n : Node) : Nat :=
+  match n.kids with
+  | x :: _ => match x.kids with
+    | f :: _ => f.kids.length
+    | [] => 0
+  | [] => 0
+
+/-- **Defect (recorded finding `C01:field-mismatch:DataForm:form.3.*.0.1`; same cause as the recorded
+`C01:own-form-roundtrip:QXmppPubSubMetadata` / `…NodeConfig` / `…PublishOptions` / `…SubAuthorization` /
+`QXmppMixConfigItem` / `QXmppMixInfoItem`).**  `decode (encode v) = v` fails for today's `QXmppDataForm`: the empty
+non-null value is not written (`<field type="text-single" var="a"/>`, no `<value/>`) and reads back as a NULL value —
+for the classes built on data forms a field with a null value does not exist, so they drop it on the next pass. -/
+theorem C01_defect_dataform_empty_value :
+    ¬ (∀ v, DataForm.Canon v → DataForm.decode (DataForm.encode v) = v) := by
+  intro h
+  have h1 := h formWitness (by decide)
+  -- re-encoding what was read with the REPAIRED writer shows no <value/>: the value read back is null
+  have h2 : firstFieldKids (DataFormFixed.encode (DataForm.decode (DataForm.encode formWitness))) = 0 := by decide +kernel
+  rw [h1] at h2
+  revert h2
+  decide +kernel
+
+/-- …and the repaired class keeps it (instance of `decode_encode`) -/
+example : DataFormFixed.decode (DataFormFixed.encode formWitness) = formWitness :=
+  decode_encode DataFormFixed wf_DataFormFixed formWitness (by decide)
+
+/-- a MAM query with query id "q1" and nothing else: the value that did not survive before /repo dfee378 (fixed finding
+C01:field-mismatch:MamQueryIq:queryId); the query id survives now (the class as a whole is not well-formed today because
+of the data form it embeds, see above) -/
 def mamWitness : List Val := [.str [], .str "q1".toList, .record [.opt none, .record [.str []], .record [.str []], .list []],
   .record [.record [.opt none], .absent, .absent, .record [.opt none]]]
+example : ((MamQueryIq.decode (MamQueryIq.encode mamWitness)).getD 1 .absent).getStr = "q1".toList := by decide +kernel
 
-/-- today's `QXmppMamQueryIq` is not a well-formed codec: it reads `queryId` and writes `queryid` -/
-theorem C01_defect_mam_queryid_not_wf : ¬ MamQueryIqCode.WF := by decide
+/-! ## a recorded limitation of `QXmppStanza::Error` -/
 
-/-- **Defect (recorded finding `C01:field-mismatch:MamQueryIq:queryId`).**  The full statement `decode (encode v) = v`
-fails for today's `QXmppMamQueryIq`: the query id "q1" is written as `queryid="q1"` and read back as empty. -/
-theorem C01_defect_mam_queryid :
-    ¬ (∀ v, MamQueryIqCode.Canon v → MamQueryIqCode.decode (MamQueryIqCode.encode v) = v) := by
+/-- an error object with `by` and a text but neither type nor condition -/
+def errorWitness : List Val := [.record [.str "a@b".toList, .opt none, .opt none, .record [.opt none, .str []], .record [.str "x".toList]]]
+
+/-- **Recorded finding `C01:field-mismatch:StanzaError:fields-without-type-and-condition`.**  The setters accept `by`,
+`code` and a text on an error that has neither type nor condition, but `toXml` writes NOTHING for such an object, so these
+fields do not survive serialize-then-parse.  The schema's canonical values exclude the assignment (`wrapGuard`);
+dropping that restriction, i.e. asking only that every field has a value of its type, the round trip fails: -/
+theorem C01_defect_error_fields_without_condition :
+    ¬ (∀ v, canonFs (match StanzaError.fields with | [.child _ fs _] => fs | _ => []) (v.headD .absent).recVals = true →
+        StanzaError.decode (StanzaError.encode v) = v) := by
   intro h
-  have h1 := h mamWitness (by decide)
-  -- the query id the class reports after the round trip is empty
-  have h2 : ((MamQueryIqCode.decode (MamQueryIqCode.encode mamWitness)).getD 1 .absent).getStr = [] := by decide +kernel
+  have h1 := h errorWitness (by decide)
+  have h2 : (((StanzaError.decode (StanzaError.encode errorWitness)).headD .absent).recVals.getD 0 .absent).getStr = [] := by
+    decide +kernel
   rw [h1] at h2
   revert h2
   decide
-
-/-- …and the repaired class keeps it (instance of `decode_encode`) -/
-example : MamQueryIq.decode (MamQueryIq.encode mamWitness) = mamWitness :=
-  decode_encode MamQueryIq wf_MamQueryIq mamWitness (by decide)
 
 /-! ## tie of the hand-written schemas to the C++ source (literal drift) -/
 
@@ -182,6 +252,12 @@ example : Literals.checkWith ["a", "h"] ["ns_stream_management"] {} SmAck = true
 example : Bind2Request.WF ∧ Bind2Request.Canon
     [.record [.str "<&\"'> ]]>".toList], .record [], .record [], .record [.flag true, .nat 18446744073709551615]] := by
   decide
+/-- …and that value meets the hypothesis of `codec_roundtrip_chars` (its strings consist of markup characters) -/
+example : Qx.Xml.XmlSafe (Bind2Request.encode
+    [.record [.str "<&\"'> ]]>".toList], .record [], .record [], .record [.flag true, .nat 18446744073709551615]]) := by
+  decide +kernel
+/-- a blank string does not (QDom would drop the text node): excluded by the property ("non-blank") -/
+example : ¬ Qx.Xml.XmlSafe (Bind2Request.encode [.record [.str " ".toList], .absent, .absent, .absent]) := by decide +kernel
 /-- all optional parts absent -/
 example : Bind2Request.Canon [.record [.str []], .absent, .absent, .absent] := by decide
 /-- repeated items, including an empty string -/
